@@ -384,6 +384,11 @@ func (c *codegen) analyzeFuncAndGlobalVarUsage() funcUsage {
 				if fn, ok := c.typeInfo.Uses[n].(*types.Func); ok && fn.Pkg() == pkg {
 					diff[c.getIdentName(pkgPath, n.Name)] = true
 				}
+			case *ast.SelectorExpr:
+				// The same with a function of an imported package (var f = pkg.Helper).
+				if name, ok := c.importedFuncName(n); ok {
+					diff[name] = true
+				}
 			case *ast.FuncDecl:
 				name := c.getFuncNameFromDecl(pkgPath, n)
 
@@ -520,6 +525,11 @@ func (c *codegen) analyzeFuncAndGlobalVarUsage() funcUsage {
 						// A declared function of this package used as a value (f := helper).
 						if fn, ok := c.typeInfo.Uses[n].(*types.Func); ok && fn.Pkg() == pkg.Types {
 							nextDiff[c.getIdentName(fd.path, n.Name)] = true
+						}
+					case *ast.SelectorExpr:
+						// The same with a function of an imported package (f := pkg.Helper).
+						if name, ok := c.importedFuncName(n); ok {
+							nextDiff[name] = true
 						}
 					}
 					return true
